@@ -58,6 +58,7 @@ class Recorder:
         self.np_slack = np_slack
         self.max_loop = max_loop
         self.last_eval_u = None
+        self.filtered = {}        # step site -> rows (bytes) returned by the candidate filter in this step
         self.bads = None
         self.fit_idx = 0
         self.in_es = 0
@@ -164,7 +165,10 @@ class Recorder:
                     rec.cur_eval = None
                     rec.last_eval_u = ce["u"]
                     rec.evals_since_loop_end += 1
-                    rec.emit("Eval", site=ce["site"], u=ce["u"], rec=ce["rec"],
+                    filt = rec.filtered.get(ce["site"])
+                    infilt = True if filt is None else (
+                        np.ascontiguousarray(np.asarray(ce["u"], dtype=float).ravel()).tobytes() in filt)
+                    rec.emit("Eval", site=ce["site"], u=ce["u"], rec=ce["rec"], infilt=bool(infilt),
                              tcalls=ce["tcalls"], outcome=outcome,
                              ret=None if ret is None else (ret[0], ret[1], ret[2]),
                              fc_after=int(fl.func_count), Xn_after=int(fl.Xn),
@@ -197,6 +201,7 @@ class Recorder:
                 def w(b, *a, **kw):
                     rec.bads = b
                     rec.stack.append(site)
+                    rec.filtered.pop(site, None)
                     rec.emit(name + "Begin", **ctl(b))
                     if site == "poll":
                         rec.polled_since_loop_end = True
@@ -215,6 +220,7 @@ class Recorder:
             def w(b, *a, **kw):
                 rec.bads = b
                 rec.stack.append("init_mesh")
+                rec.filtered.pop("init_mesh", None)
                 try:
                     r = orig(b, *a, **kw)
                     fl = b.function_logger
@@ -284,11 +290,18 @@ class Recorder:
         def mk_filter(orig, where):
             def w(U, lb, ub, tol_mesh, function_logger, proj=True, non_box_cons=None):
                 Uin = _c(U)
+                step_site = rec.stack[-1] if rec.stack else None
                 rec.stack.append("filter")
                 try:
                     out = orig(U, lb, ub, tol_mesh, function_logger, proj, non_box_cons)
                 finally:
                     rec.stack.pop()
+                if where == "bads" and step_site in ("search", "poll", "init_mesh"):
+                    try:
+                        rows = np.ascontiguousarray(np.atleast_2d(np.asarray(out, dtype=float)))
+                        rec.filtered.setdefault(step_site, set()).update(r_.tobytes() for r_ in rows)
+                    except Exception:
+                        pass
                 try:
                     rec._log_filter(where, Uin, _c(lb), _c(ub), float(tol_mesh),
                                     function_logger, bool(proj), non_box_cons, _c(out))
@@ -307,7 +320,10 @@ class Recorder:
                 b = rec.bads
                 rec.emit("PollDirs", B=_c(B), poll_scale=_c(poll_scale).ravel(),
                          search_mesh_size=float(search_mesh_size), mesh_size=float(mesh_size),
-                         u=_c(b.u).ravel() if b is not None else None, D=int(dim_x))
+                         u=_c(b.u).ravel() if b is not None else None, D=int(dim_x),
+                         # the CURRENT mesh size, from the mesh exponent (not from the argument passed)
+                         mesh_true=(float(b.options["poll_mesh_multiplier"]) ** int(b.mesh_size_integer))
+                         if b is not None else float(mesh_size))
                 return B
             return w
         self._patch(BB, "poll_mads_2n", mk_poll)
